@@ -6,6 +6,7 @@
 //	shutdown                   Shutdown, waits for DoListen to return
 //	info                       GetInfo: direct HandleMessage reply bytes, and (while listening) the client helper's fields
 //	descr <hexname>            GetInterfaceDescription likewise
+//	call <hexmethod>           a call of that method string through HandleMessage (every registered interface answers MethodNotImplemented)
 package main
 
 import (
@@ -148,6 +149,9 @@ func runCase(dir string, n int, line string) (res string) {
 				cancel()
 			}
 			out = append(out, r)
+		case "call":
+			mb, _ := json.Marshal(string(vt.Unhex(f[1])))
+			out = append(out, "call "+direct(`{"method":`+string(mb)+`}`))
 		case "descr":
 			name := string(vt.Unhex(f[1]))
 			nb, _ := json.Marshal(name)
